@@ -103,7 +103,7 @@ Proof.
   - destruct (xt_pc x) eqn:Ep; try discriminate H.
     + destruct (xt_ctx x) eqn:Ec; injection H as <- <-; fin_x Ep.
     + specialize (H3 eq_refl).
-      destruct (xt_toks x) as [|[v|] r]; injection H as <- <-; cbn; rewrite H3;
+      destruct (xt_toks x) as [|[v|e|] r]; injection H as <- <-; cbn; rewrite H3;
         destruct (xt_ctx x); fin_x Ep.
   - injection H as <- <-. cbn. repeat split; auto. intros E; discriminate E.
 Qed.
@@ -128,3 +128,94 @@ Lemma xml_bounded_read_ahead_percall_refuted :
   xt_tac (fst (xtrun true xt_witness_sched (xtinit xt_witness_toks))) = 5 /\
   snd (xtrun true xt_witness_sched (xtinit xt_witness_toks)) = [OScan false 0%Z; OErr 0%Z].
 Proof. vm_compute. split; reflexivity. Qed.
+
+(* ---- token machine under concurrent cancellation: order, Err, Scan after a stop ---- *)
+Definition xt_inv (toks0 : list xtok) (x : xts) : Prop :=
+  (xt_pc x <> XIdle -> xt_err x = 0%Z) /\
+  ((xt_err x = 0%Z /\ xt_delivered x ++ xt_expected (xt_toks x) = xt_expected toks0 /\ xt_final (xt_toks x) = xt_final toks0)
+   \/ (xt_err x = xt_final toks0 /\ xt_err x <> 0%Z /\ xt_delivered x = xt_expected toks0)).
+
+Lemma xt_final_err : forall l, xt_wf l = true -> is_err (xt_final l) = true.
+Proof.
+  induction l as [|[v|e|] r IH]; cbn; intros H; try reflexivity; try (apply IH; exact H).
+  apply andb_true_iff in H. tauto.
+Qed.
+
+Lemma xt_inv_step : forall toks0 l x x' o, xt_wf toks0 = true -> xt_inv toks0 x ->
+  xtstep false l x = Some (x', o) -> xt_inv toks0 x'.
+Proof.
+  intros toks0 l x x' o Hwf [HP HI] H.
+  destruct l as [a| |]; cbn in H.
+  - destruct (xt_pc x) eqn:Ep; try discriminate H. destruct a; try discriminate H; cbn in H.
+    + destruct (is_err (xt_err x)) eqn:Ee.
+      * injection H as <- <-. split; [rewrite Ep; intros E; exfalso; apply E; reflexivity|exact HI].
+      * injection H as <- <-. split; [|exact HI]. cbn. intros _.
+        unfold is_err in Ee. apply negb_false_iff, Z.eqb_eq in Ee. exact Ee.
+    + injection H as <- <-. split; [rewrite Ep; intros E; exfalso; apply E; reflexivity|exact HI].
+    + injection H as <- <-. split; [cbn; intros E; exfalso; apply E; reflexivity|exact HI].
+    + injection H as <- <-. split; [cbn; intros E; exfalso; apply E; reflexivity|exact HI].
+  - destruct (xt_pc x) eqn:Ep; try discriminate H.
+    + assert (xt_err x = 0%Z) as E0 by (apply HP; discriminate).
+      destruct (xt_ctx x); injection H as <- <-; (split; [cbn; intros _; exact E0 || (intros E; exfalso; apply E; reflexivity)|exact HI]).
+    + assert (xt_err x = 0%Z) as E0 by (apply HP; discriminate).
+      destruct HI as [(_ & D & F)|(E1 & E2 & _)].
+      2:{ exfalso. apply E2. exact E0. }
+      destruct (xt_toks x) as [|[v|e|] r] eqn:Et; injection H as <- <-; cbn in *.
+      * split; [intros E; exfalso; apply E; reflexivity|]. right. rewrite app_nil_r in D. rewrite <- F. repeat split; auto. discriminate.
+      * split; [intros E; exfalso; apply E; reflexivity|]. left. cbn. split; [exact E0|]. split; [|exact F].
+        rewrite <- app_assoc. exact D.
+      * split; [intros E; exfalso; apply E; reflexivity|]. right. rewrite app_nil_r in D. rewrite <- F. repeat split; auto.
+        rewrite F. pose proof (xt_final_err toks0 Hwf) as Hf. unfold is_err in Hf. apply negb_true_iff, Z.eqb_neq in Hf. exact Hf.
+      * split; [intros _; exact E0|]. left. repeat split; auto.
+  - injection H as <- <-. split; [exact HP|exact HI].
+Qed.
+
+Lemma xt_inv_run : forall toks0 sched x, xt_wf toks0 = true -> xt_inv toks0 x -> xt_inv toks0 (fst (xtrun false sched x)).
+Proof.
+  induction sched as [|l r IH]; intros x Hwf Hx; [exact Hx|]. cbn.
+  destruct (xtstep false l x) as [[x' o]|] eqn:E.
+  - specialize (IH x' Hwf (xt_inv_step toks0 l x x' o Hwf Hx E)). destruct (xtrun false r x'). exact IH.
+  - apply IH; assumption.
+Qed.
+
+Lemma xt_inv_init : forall toks, xt_inv toks (xtinit toks).
+Proof. intros toks. split; [intros E; exfalso; apply E; reflexivity|]. left. repeat split. Qed.
+
+(* whatever the interleaving with a cancellation from another goroutine: what was delivered is a
+   prefix of the document's objects; Err is nil only after EOF with every object delivered (or while
+   nothing stopped the scan); a recorded error is the document's own *)
+Lemma xml_token_prefix : forall toks sched, xt_wf toks = true ->
+  exists t, xt_delivered (fst (xtrun false sched (xtinit toks))) ++ t = xt_expected toks.
+Proof.
+  intros toks sched Hwf. destruct (xt_inv_run toks sched _ Hwf (xt_inv_init toks)) as [_ [(_ & D & _)|(_ & _ & D)]].
+  - eexists. exact D.
+  - exists []. rewrite app_nil_r. exact D.
+Qed.
+
+Lemma xml_token_err_nil_only_complete : forall toks sched, xt_wf toks = true ->
+  let x := fst (xtrun false sched (xtinit toks)) in
+  xt_err_value x = 0%Z ->
+  (xt_err x = eEOF /\ xt_final toks = eEOF /\ xt_delivered x = xt_expected toks) \/
+  (xt_err x = 0%Z /\ xt_closed x = false /\ xt_ctx x = false).
+Proof.
+  intros toks sched Hwf x Hv. destruct (xt_inv_run toks sched _ Hwf (xt_inv_init toks)) as [_ HI]. fold x in HI.
+  unfold xt_err_value in Hv. destruct (Z.eqb (xt_err x) eEOF) eqn:E1.
+  - left. apply Z.eqb_eq in E1. destruct HI as [(E0 & _)|(A & _ & D)]; [rewrite E0 in E1; discriminate E1|].
+    split; [exact E1|]. split; [rewrite <- A; exact E1|exact D].
+  - right. destruct (is_err (xt_err x)) eqn:E2.
+    + unfold is_err in E2. rewrite Hv in E2. discriminate E2.
+    + unfold is_err in E2. apply negb_false_iff, Z.eqb_eq in E2.
+      destruct (xt_closed x); [discriminate Hv|]. destruct (xt_ctx x); [discriminate Hv|]. auto.
+Qed.
+
+(* a Scan call issued after Close / cancel is answered false by the very next step *)
+Lemma xml_token_scan_after_stop : forall x x1 o1 x2 o2, xt_ctx x = true ->
+  xtstep false (XLCall CScan) x = Some (x1, o1) ->
+  (o1 = [OScan false 0%Z] /\ xt_pc x1 = XIdle) \/
+  (o1 = [] /\ (xtstep false XLStep x1 = Some (x2, o2) -> o2 = [OScan false 0%Z] /\ xt_pc x2 = XIdle)).
+Proof.
+  intros x x1 o1 x2 o2 Hc H. cbn in H. destruct (xt_pc x) eqn:Ep; try discriminate H.
+  destruct (is_err (xt_err x)).
+  - injection H as <- <-. left. split; [reflexivity|exact Ep].
+  - injection H as <- <-. right. split; [reflexivity|]. cbn. rewrite Hc. intros H2. injection H2 as <- <-. split; reflexivity.
+Qed.
